@@ -461,6 +461,31 @@ func VerifH_C15_optional_fields() {
 	}
 }
 
+// C15: optional fields whose expression has two sources (e.g. "a + c"): present exactly when both were produced.
+func VerifH_C15_optional_two_sources() {
+	two := func() *verifExpr {
+		return vx2(vx("steps", "a", "outputs", "success", "v"), vx("steps", "c", "outputs", "success", "v"))
+	}
+	t := tWorkflow{
+		steps: []tStep{
+			{id: "a", fields: map[string]any{"input": verifStepInput(vx("input"))}, outcome: map[string]int{"deploy": 0, "start": 0}},
+			{id: "c", fields: map[string]any{"input": verifStepInput(vx("input"))}, outcome: map[string]int{"deploy": 0, "start": 0}},
+			{id: "b", fields: map[string]any{"input": map[any]any{
+				"x": vx("input"),
+				"w": &infer.OptionalExpression{Expr: two(), WaitForCompletion: true},
+			}}, outcome: map[string]int{"deploy": 0, "start": 0, "result": 0}},
+		},
+		outputs: map[string]any{"success": map[any]any{
+			"b": vx("steps", "b", "outputs", "success", "v"),
+			"s": &infer.OptionalExpression{Expr: two(), WaitForCompletion: false},
+		}},
+	}
+	ew, run := verifPrepare(t)
+	in := verifrt.NondetVal("input")
+	res := verifExecute(ew, run, t, in)
+	verifCheck(t, run, res, verifNorm(in), vCheckOpts{})
+}
+
 // C15: one-of in a step input and or-disabled (a one-of over enabled/disabled) in the workflow output.
 func VerifH_C15_oneof_ordisabled() {
 	t := tWorkflow{
